@@ -407,7 +407,13 @@ func (dr *DecodingReader) Union(selectFn func(selector uint8) (Deserializable, e
 		if selector != 0 {
 			return fmt.Errorf("only 0 the selector can indicate a None value")
 		}
+		if rem := dr.Scope(); rem != 0 {
+			return fmt.Errorf("None union value must not be followed by data, got %d trailing bytes", rem)
+		}
 		return nil
+	}
+	if fix, rem := dest.FixedLength(), dr.Scope(); fix != 0 && fix != rem {
+		return fmt.Errorf("fixed-size union value of %d bytes does not match remaining scope %d", fix, rem)
 	}
 	return dest.Deserialize(dr)
 }
